@@ -1,4 +1,4 @@
-// verif:properties C03
+// verif:properties C03 C09
 package uhppote
 
 // C03 - only a well-formed reply from the addressed controller is ever accepted.
@@ -249,3 +249,7 @@ func VerifC03_MalformedDateField() {
 	verifAssert(!ok && err != nil, f.op+": a reply that passes as the controller's but has a non-decimal date field makes the call fail")
 	verifReach("c03.malformed")
 }
+
+// C09: "... never gives up early": on the broadcast route a datagram from another controller, or of the wrong
+// length, does not end the call - the reply that follows is still accepted
+func VerifC09_BroadcastKeepsWaitingForItsController() { c03Broadcast(c03GetCards(), 2) }
